@@ -118,13 +118,17 @@ structure Merged where
   nerr : Nat
 deriving DecidableEq, Repr
 
+/-- `if dst.Total > 0 { dst.Total -= repetitionsCount }` on uint64 (wraps when more repetitions than total) -/
+def subTotal (total reps : Nat) : Nat :=
+  if total > 0 then (if reps ≤ total then total - reps else total + 18446744073709551616 - reps) else total
+
 def mergeQPRs (rev : Bool) (limit : Nat) (qprs : List QPR) : Merged :=
   let sorted := sortS rev (allTagged qprs)
   let dd := dedup sorted
   let reps := sorted.length - dd.length
   let tot := (qprs.map (·.total)).sum
   { ids := dd.take limit
-    total := if tot > 0 then tot - reps else tot
+    total := subTotal tot reps
     nerr := (qprs.map (·.nerr)).sum }
 
 def paginate (ids : List (ID × Src)) (offset size : Nat) : List (ID × Src) := (ids.drop offset).take size
